@@ -152,5 +152,44 @@ func main() {
 		fmt.Printf("MISMATCHES %d\n", bad)
 		os.Exit(3)
 	}
+	// values DERIVED from one another (Normalize, Invert, Copy, Split) are distinct values: one
+	// goroutine queries the source, another the derived one, both untouched until then
+	probeFS := func(f *fileseq.FrameSet) string {
+		return fmt.Sprint(f.End(), f.Len(), f.Index(57), f.HasFrame(100), f.Start(), f.FrameRange(), f.Frames())
+	}
+	probeQ := func(q *fileseq.FileSequence) string {
+		return fmt.Sprint(q.End(), q.Len(), q.Index(1), q.String(), q.ZFill(), q.FrameRangePadded())
+	}
+	for round := 0; round < 40; round++ {
+		rs := []string{"1-100", "5-50x5", "100-1", "1-10,20-30", "7", "1-20y3"}[(round+seed)%6]
+		mk := func() (*fileseq.FrameSet, *fileseq.FrameSet, *fileseq.FrameSet, *fileseq.FileSequence, *fileseq.FileSequence, *fileseq.FileSequence) {
+			src, _ := fileseq.NewFrameSet(rs)
+			q, _ := fileseq.NewFileSequence("/a/foo." + rs + "#.exr")
+			parts := q.Split()
+			return src, src.Normalize(), src.Invert(), q, q.Copy(), parts[len(parts)-1]
+		}
+		a, b, c, q, qc, qp := mk()
+		var got [6]string
+		var wg2 sync.WaitGroup
+		start2 := make(chan struct{})
+		for i, fn := range []func() string{
+			func() string { return probeFS(a) }, func() string { return probeFS(b) }, func() string { return probeFS(c) },
+			func() string { return probeQ(q) }, func() string { return probeQ(qc) }, func() string { return probeQ(qp) }} {
+			wg2.Add(1)
+			go func(i int, fn func() string) {
+				defer wg2.Done()
+				<-start2
+				got[i] = fn()
+			}(i, fn)
+		}
+		close(start2)
+		wg2.Wait()
+		a2, b2, c2, q2, qc2, qp2 := mk()
+		want := [6]string{probeFS(a2), probeFS(b2), probeFS(c2), probeQ(q2), probeQ(qc2), probeQ(qp2)}
+		if got != want {
+			fmt.Printf("MISMATCH derived values of %q: concurrent %q sequential %q\n", rs, got, want)
+			os.Exit(3)
+		}
+	}
 	fmt.Println("OK")
 }
